@@ -76,7 +76,7 @@ class Ellipse(Shape2D):
     @a.setter
     def a(self, value):
         if value > 0:
-            self._a = value
+            self._a = float(value)
         else:
             raise ValueError("a must be greater than zero.")
 
@@ -88,7 +88,7 @@ class Ellipse(Shape2D):
     @b.setter
     def b(self, value):
         if value > 0:
-            self._b = value
+            self._b = float(value)
         else:
             raise ValueError("b must be greater than zero.")
 
